@@ -232,6 +232,32 @@ def main():
     out.append("(* flush: `if self.write_offset OP self.write_buffer.len() { clear; offset = 0 }` sites: %s *)" % (", ".join(done) or "none"))
     out.append("Definition flush_clears (off len : nat) : bool := %s." % (ops[done[-1]] if done else "false"))
     out.append("Definition flush_clear_sites : nat := %d." % len(done))
+    # ---- RdbEngine::bgsave (C10): the in-progress flag is set before the thread is spawned, and the
+    # thread clears it AFTER the match on the save's result (so on success and on failure alike)
+    rdb = read("src/storage/rdb.rs")
+    bg = fn_body(rdb, "bgsave") or ""
+    sp = bg.find("thread::spawn")
+    sets_before = bool(re.search(r"\*bgsave\s*=\s*true\s*;", bg[:sp])) if sp >= 0 else False
+    clears_after = False
+    arms_return = True
+    if sp >= 0:
+        clo = block_after(bg, sp)                      # the closure body
+        mm = re.search(r"match\s+engine\.save\s*\(", clo)
+        if mm:
+            mblock = block_after(clo, mm.start())
+            rest = clo[clo.index(mblock) + len(mblock):]
+            # the clearing statement at the closure's top level after the match
+            depth, top = 0, []
+            for ch in rest:
+                if ch == "{": depth += 1
+                elif ch == "}": depth -= 1
+                elif depth == 0: top.append(ch)
+            clears_after = bool(re.search(r"\*bgsave\s*=\s*false\s*;", "".join(top)))
+            arms_return = bool(re.search(r"\breturn\b|\bpanic!|\bunwrap\(\)|\?\s*;", mblock))
+    if not (sets_before and clears_after and not arms_return): warn.append("bgsave flag discipline not recognised")
+    out.append("(* rdb.rs bgsave: `*bgsave = true` before thread::spawn; inside the thread `match engine.save(..) {..}` whose arms\n   neither return nor can panic, followed at the closure's top level by `*bgsave = false` *)")
+    out.append("Definition rdb_bgsave_sets_flag_before_spawn : bool := %s." % ("true" if sets_before else "false"))
+    out.append("Definition rdb_bgsave_clears_flag_after_match : bool := %s." % ("true" if (clears_after and not arms_return) else "false"))
     txt = ("(** GENERATED by tools/gen_tables.py from /repo's current sources - do not edit. *)\n"
            "From Ferrous Require Import Base.Bytes.\nOpen Scope Z_scope.\n\n" + "\n\n".join(out) + "\n")
     path = os.path.join(VERIF, "coq", "Generated.v")
